@@ -1466,6 +1466,21 @@ func (g *gen) generate() {
 		}
 	}
 
+	// --- one connection object used in both directions, every length in a range, a peer that reads late (duplex.go)
+	for _, v := range []string{"A", "I"} {
+		for _, sc := range []string{
+			"duplex:W262144,R508,W4,R1024,W65536,R4,R512,W1048576,R0,R516,W508,R262144,R504",
+			"duplex:R1024,W4,R8,W1024,R1048576,W0,R508,W512,R512",
+			"duplex:W524288,R1020,R1016,W4,R1024",
+			"dense:0-4096", "denseread:0-4096",
+			"dense:1440-1480", "dense:8176-8208", "dense:16368-16400", "dense:32752-32784", "dense:65520-65552",
+			"denseread:65520-65552",
+			"stall:12x1048576:900",
+		} {
+			g.add(&job{kind: "U", v: v, scenario: sc, class: strings.SplitN(sc, ":", 2)[0]})
+		}
+	}
+
 	// --- thorough: one byte at a time through a 2^20-byte message (about a minute of barriers)
 	if thorough {
 		for _, x := range []struct {
@@ -1864,6 +1879,8 @@ func (p *peer) exec(j *job) {
 		j.ok = p.selftest(j.stream, j.cuts)
 	case "H":
 		j.impl = runH(j.v, j.lens[0])
+	case "U":
+		j.impl = p.runU(j.v, j.scenario)
 	case "B":
 		j.impl = p.runB(j.v, j.lens, j.rng)
 	case "X":
@@ -2027,6 +2044,8 @@ func main() {
 					unp = strings.Join(l, ",")
 				}
 				out.Line("T", id, j.v, vc.Hex(j.stream), sizesText(j.cuts), j.impl, same(j.expect, j.impl), j.class, j.ann, unp)
+			case "U":
+				out.Line("U", id, j.v, j.scenario, j.impl, "ok", j.class)
 			case "H":
 				out.Line("H", id, j.v, strconv.FormatInt(j.lens[0], 10), j.impl, "O:"+vc.Hex(refHeader(j.v, int(j.lens[0]))))
 			case "B":
@@ -2107,6 +2126,8 @@ func main() {
 		case "W":
 			ann, r := runW(arg(3), vc.UnHex(arg(4)))
 			fmt.Println(r + "\t" + ann)
+		case "U":
+			fmt.Println(p.runU(arg(3), arg(4)))
 		case "F":
 			fmt.Println(p.runF(arg(3), unhexList(arg(4))))
 		case "FT":
